@@ -183,7 +183,7 @@ def run_tlc(module, cfg, cwd, workers=None, timeout=1800, extra=(), env=None, si
     meta = scratch("ev_tlc_")
     libs = os.pathsep.join([os.path.join(SPECS, d) for d in sorted(os.listdir(SPECS))
                             if os.path.isdir(os.path.join(SPECS, d))])
-    cmd = ["java", "-XX:+UseParallelGC", "-Xmx8g", "-DTLA-Library=" + libs] + list(java_opts) + \
+    cmd = ["java", "-XX:+UseParallelGC", "-Xmx6g", "-DTLA-Library=" + libs] + list(java_opts) + \
           ["-cp", TLA_JAR + ":/opt/veriftools/tla/CommunityModules-deps.jar", "tlc2.TLC",
            "-workers", str(workers), "-metadir", meta, "-noGenerateSpecTE", "-config", cfg]
     if not deadlock:
@@ -274,6 +274,13 @@ def parse_prints(out):
         if not re.match(r'^<<\s*"', line):
             continue
         buf = line
+        if line.startswith('<<"CASE", "') and line.endswith('">>'):
+            # fast path: one ToJson string on one line
+            try:
+                res.append(("CASE", json.loads(json.loads(line[10:-2]))))
+                continue
+            except ValueError:
+                pass
         while _balanced(buf) > 0 and i < len(lines):
             buf += " " + lines[i].strip()
             i += 1
@@ -473,10 +480,13 @@ class Ctx:
                 self.known_hits.setdefault(key, {"what": k["what"], "n": 0, "example": record})
                 self.known_hits[key]["n"] += 1
                 return False
-        nkey = sum(1 for k in self.violations if k == key)
+        if not hasattr(self, "_vcount"):
+            self._vcount = {}
+        nkey = self._vcount.get(key, 0)
+        self._vcount[key] = nkey + 1
         if len(self.violations) == 0 and os.path.isdir(self.vdir):
             shutil.rmtree(self.vdir, ignore_errors=True)
-        if nkey < 3 and len(set(self.violations)) < 40:
+        if nkey < 3 and len(self._vcount) <= 40:
             os.makedirs(self.vdir, exist_ok=True)
             path = os.path.join(self.vdir, "%d.json" % len(self.violations))
             record = dict(record)
